@@ -635,6 +635,13 @@ def check(tier, seed, replay=None):
                      key=lambda r: json.dumps(r['cfg'], sort_keys=True),
                      describe=lambda r: {'cfg': r['cfg'], 'observed': r['obs']})
 
+    # `buffer` is the one sequential-meaning operator with a thread behind it: its identity (every element, then the source's
+    # own ending) is also checked on the real Buffer under the deterministic scheduler, every run replayed in Model/Buffer.v
+    # (the part, oracle and driver of the C05 check; timed queue reads may expire while the producer is merely slow).
+    from harness.props import c05 as _c05
+    bufpart = core.Part('buffer', 'harness.scen_stream', 'buffer', 300, 4000, 'DriverBuffer', _c05.ss.coq_buffer_case,
+                        _c05.make_oracle('buffer'), _c05.nontrivial)
+
     def post(all_results, out, cov):
         rs = [r for r in all_results.get('ops', []) if comparable(r)]
         bad, problem = core.tv_eval(PROP, 'DriverOps', [coq_case(r) for r in rs], shard=350)
@@ -660,12 +667,14 @@ def check(tier, seed, replay=None):
         cov['raising_cases'] = sum(1 for r in all_results.get('ops', []) if r['obs'].get('ending') not in (-1, None))
 
     return core.generic_check(
-        PROP, tier, seed, [part], TRUSTED, ASSUME,
+        PROP, tier, seed, [part, bufpart], TRUSTED, ASSUME,
         rule='random pipelines (0-6 operators from map/filter/filter_exceptions/peek/head/tail/batch/unbatch/groupby/accumulate/'
              'buffer/parmap/shuffle with boundary parameters 1, len-1, len, len+1) over random element lists (ints, None, exception '
              'objects incl. a subclass, nested lists; optional source failure), consumed by iteration, collect or drain; every tenth '
              'case is a one-to-one chain consumed for k outputs only (pull-count bound). Real Stream vs Coq model (vm_compute) vs an '
-             'independent reference implementation. non-trivial = at least 2 operators and 2 elements; distinct = distinct case',
+             'independent reference implementation. non-trivial = at least 2 operators and 2 elements; distinct = distinct case. '
+             'Second part: the real Buffer (the thread behind `buffer`) under the deterministic scheduler, random interleavings, '
+             'each logged run replayed in coq/Model/Buffer.v and judged by the identity oracle',
         replay=replay, post=post)
 
 
